@@ -122,7 +122,7 @@ func analyse(evs []event, nlines int) (string, int) {
 func TestC20(t *testing.T) {
 	r := ev.Start(t, "C20", "exploration")
 	defer r.Finish()
-	r.Rule("one program (gauge g = $seq; counter lines++) on a real runtime.Runtime; lines 0..N-1 pushed back to back; a reloader alternates two source versions at PRNG-chosen points; PRNG-chosen line executions are stretched at the verif line hook and the reload hook yields between closing the old version's channel and starting the new one. The hook event log is checked offline: every fanned-out line has exactly one line_start, line k+1 never starts before line k ended, the gauge ends at the last line's sequence number and the counter at N. Non-trivial: a run in which >=1 reload found the old version still busy when the next line was fanned out; distinct by run index.")
+	r.Rule("one program (gauge g = $seq; counter lines++) on a real runtime.Runtime; lines 0..N-1 pushed back to back; a reloader alternates two source versions at PRNG-chosen points; PRNG-chosen line executions are stretched at the verif line hook (by 1-8 ms; in the last run one line is held for 1.6 s, in the thorough tier also 6 s and 31 s, with a reload requested meanwhile) and the reload hook yields between closing the old version's channel and starting the new one. The hook event log is checked offline: every fanned-out line has exactly one line_start, line k+1 never starts before line k ended, the gauge ends at the last line's sequence number and the counter at N. Non-trivial: a run in which >=1 reload found the old version still busy when the next line was fanned out; distinct by run index.")
 	r.Assume("schedules are provoked (delays at hooks, many runs), not enumerated; the log's logical clock is one mutex-protected counter")
 	lh := func(id uint64, name string, l *logline.LogLine, phase int) {
 		rec := cur.Load()
@@ -171,6 +171,17 @@ func TestC20(t *testing.T) {
 				slow[s] = time.Duration(g.Range(1, 8)) * time.Millisecond
 			}
 		}
+		// the last run(s): one line is held for far longer than any reload
+		// should be willing to wait (1.6 s; thorough also 6 s and 31 s), with a
+		// reload requested while it executes
+		if hold := map[int]time.Duration{runs - 1: 1600 * time.Millisecond, runs - 2: thoroughHold(6 * time.Second), runs - 3: thoroughHold(31 * time.Second)}[run]; hold > 0 {
+			at := nlines / 2
+			slow[at] = hold
+			longHoldReloadAt = at + 1
+			r.Count("runs_with_a_line_held_for_seconds", 1)
+		} else {
+			longHoldReloadAt = -1
+		}
 		rec := &recorder{prog: prog}
 		rec.delay = func(id uint64, seq int) time.Duration { return slow[seq] }
 		yields := make([]time.Duration, 64)
@@ -198,6 +209,9 @@ func TestC20(t *testing.T) {
 		reloadAt := map[int]bool{}
 		for k := 0; k < g.Range(3, 8); k++ {
 			reloadAt[g.Range(1, nlines-1)] = true
+		}
+		if longHoldReloadAt > 0 {
+			reloadAt[longHoldReloadAt] = true
 		}
 		r.Guard(fmt.Sprintf("run %d: feeding the lines, the reloads, and runtime shutdown after the line channel was closed", run), func() {
 			var rwg sync.WaitGroup
@@ -272,6 +286,16 @@ func TestC20(t *testing.T) {
 	if r.Violations() == 0 {
 		r.Floor("reloads_with_old_version_busy_at_next_fanout", int64(ev.Pick(10, 200)))
 	}
+}
+
+var longHoldReloadAt = -1
+
+// thoroughHold returns d in the thorough tier and 0 (no such run) otherwise.
+func thoroughHold(d time.Duration) time.Duration {
+	if ev.Thorough() {
+		return d
+	}
+	return 0
 }
 
 func keys(m map[int]bool) []int {
